@@ -57,8 +57,9 @@ func dynFocusSchema(r *rand.Rand) *schema.BodySchema {
 		Labels: []*schema.LabelSchema{{Name: "type", IsDepKey: true}, {Name: "name"}},
 		Body: &schema.BodySchema{
 			Extensions: &schema.BodyExtensions{DynamicBlocks: true, Count: r.Intn(2) == 0},
-			Attributes: map[string]*schema.AttributeSchema{"id": {IsOptional: true, Constraint: schema.LiteralType{Type: cty.String}}},
-			Blocks:     map[string]*schema.BlockSchema{"static": inner()},
+			Attributes: map[string]*schema.AttributeSchema{"id": {IsOptional: true, Constraint: schema.LiteralType{Type: cty.String}},
+				"static_wo": {IsRequired: true, IsWriteOnly: true, Constraint: schema.LiteralType{Type: cty.String}}},
+			Blocks: map[string]*schema.BlockSchema{"static": inner()},
 		},
 		DependentBody: map[schema.SchemaKey]*schema.BodySchema{},
 		MinItems:      3, // several blocks per file: resolved and unresolved dependent bodies side by side
@@ -140,7 +141,29 @@ func dynFocusSchema(r *rand.Rand) *schema.BodySchema {
 		Attributes: map[string]*schema.AttributeSchema{"note": {IsOptional: true, Constraint: schema.LiteralType{Type: cty.String}}},
 		Blocks:     map[string]*schema.BlockSchema{"conn": shared},
 	}}
-	return &schema.BodySchema{Blocks: map[string]*schema.BlockSchema{"resource": res, "svc": svc, "plug": plug, "plain": plain}}
+	// token modifiers accumulated over two block levels (spare capacity in the accumulated slice), several
+	// attributes with modifiers of their own in the inner body
+	mods := &schema.BlockSchema{MinItems: 1, SemanticTokenModifiers: lang.SemanticTokenModifiers{"m-outer-1", "m-outer-2"},
+		Body: &schema.BodySchema{
+			Attributes: map[string]*schema.AttributeSchema{"mo": {IsOptional: true, Constraint: schema.LiteralType{Type: cty.String}, SemanticTokenModifiers: lang.SemanticTokenModifiers{"m-mo"}}},
+			Blocks: map[string]*schema.BlockSchema{"minner": {MinItems: 1, SemanticTokenModifiers: lang.SemanticTokenModifiers{"m-inner"},
+				Body: &schema.BodySchema{Attributes: map[string]*schema.AttributeSchema{
+					"ma": {IsRequired: true, Constraint: schema.LiteralType{Type: cty.String}, SemanticTokenModifiers: lang.SemanticTokenModifiers{"m-a"}},
+					"mb": {IsRequired: true, Constraint: schema.LiteralType{Type: cty.Number}, SemanticTokenModifiers: lang.SemanticTokenModifiers{"m-b"}},
+					"mc": {IsRequired: true, Constraint: schema.LiteralType{Type: cty.Bool}, SemanticTokenModifiers: lang.SemanticTokenModifiers{"m-c1", "m-c2"}},
+				}}}},
+		}}
+	// write-only attributes of resource blocks, documentation links of bodies selected by several attributes
+	for _, db := range res.DependentBody {
+		db.Attributes["secret_wo"] = &schema.AttributeSchema{IsRequired: true, IsWriteOnly: true, Constraint: schema.LiteralType{Type: cty.String}}
+		db.Attributes["token_wo"] = &schema.AttributeSchema{IsRequired: true, IsWriteOnly: true, Constraint: schema.LiteralType{Type: cty.String}}
+		db.Attributes["key_wo"] = &schema.AttributeSchema{IsRequired: true, IsWriteOnly: true, Constraint: schema.LiteralType{Type: cty.String}}
+		db.DocsLink = &schema.DocsLink{URL: "https://example.com/docs/res?b=2&a=1", Tooltip: "res docs"}
+	}
+	for _, db := range svc.DependentBody {
+		db.DocsLink = &schema.DocsLink{URL: "https://example.com/docs/svc", Tooltip: "svc docs"}
+	}
+	return &schema.BodySchema{Blocks: map[string]*schema.BlockSchema{"resource": res, "svc": svc, "plug": plug, "plain": plain, "mods": mods}}
 }
 
 func genType(r *rand.Rand, d int) cty.Type {
@@ -946,10 +969,15 @@ func (g *cfgGen) attr(n string, as *schema.AttributeSchema, d int) string {
 func (g *cfgGen) block(bt string, bs *schema.BlockSchema, d int, depth int) {
 	r := g.r
 	nl := len(bs.Labels)
-	if g.inj && r.Intn(5) == 0 {
-		nl += r.Intn(3) - 1
-		if nl < 0 {
-			nl = 0
+	if g.inj {
+		switch r.Intn(6) {
+		case 0:
+			nl += r.Intn(3) - 1
+			if nl < 0 {
+				nl = 0
+			}
+		case 1:
+			nl = 0 // a header without any label (a block being typed)
 		}
 	}
 	var labels []string
